@@ -538,3 +538,159 @@ def compare(op, impl, model):
         if ir != model['raised']:
             diffs.append('frame: impl contained-error=%r model raised=%r' % (ir, model['raised']))
     return diffs
+
+
+# ------------------------------------------------------------------ case execution, shrinking, replay
+
+def execute(mode, cfg, ops, coro=False):
+    """Run a fixed op list on impl and model. -> (trace [(op, impl_obs, model_obs)], residue, snapshot, skipped)"""
+    r = Runner(mode, cfg, coroutine_handlers=coro)
+    try:
+        ops = [o for o in ops if representable(o)]
+        impl = [r.do(copy.deepcopy(o)) for o in ops]
+        residue = r.residue()
+    finally:
+        r.close()
+    model, snap = model_run(cfg, ops)
+    return list(zip(ops, impl, model)), residue, snap
+
+
+def first_divergence(trace):
+    for i, (op, im, mo) in enumerate(trace):
+        d = compare(op, im, mo)
+        if d:
+            return i, d
+    return None
+
+
+def shrink_ops(ops, still_fails, budget=120):
+    """greedy one-at-a-time removal (from the end), bounded"""
+    cur = list(ops)
+    i = len(cur) - 1
+    tries = 0
+    while i >= 0 and tries < budget:
+        cand = cur[:i] + cur[i + 1:]
+        tries += 1
+        try:
+            bad = still_fails(cand)
+        except Exception:   # noqa
+            bad = False
+        if bad:
+            cur = cand
+        i -= 1
+    return cur
+
+
+def run_cases(ctx, profile, ncases, nops, oracle=None, nontrivial=None, modes=('threading', 'asyncio'),
+              final_lose_all=False, gen_hook=None):
+    """Generic K4 correspondence + oracle loop. `oracle(cfg, trace, residue)` returns a list of
+    (signature_or_None, text) failures judged on the IMPLEMENTATION's observations only;
+    `nontrivial(cfg, trace)` returns a hashable key or None."""
+    from . import server_gen as SG
+    rng = ctx.rng
+    nontriv = set()
+    evals = 0
+    samples = []
+    for ci in range(ncases):
+        cfg = SG.make_cfg(rng, profile)
+        mode = modes[ci % len(modes)]
+        coro = rng.random() < 0.5
+        sc = SG.Scenario(rng, profile)
+        if gen_hook:
+            gen_hook(sc, cfg)
+        runner = Runner(mode, cfg, coroutine_handlers=coro)
+        ops, impl = [], []
+        try:
+            n = rng.randint(max(3, nops // 3), nops)
+            k = 0
+            while k < n or sc.pending_frames:
+                op = sc.next()
+                k += 1
+                if not representable(op):
+                    ctx.count('skipped_unrepresentable')
+                    continue
+                obs = runner.do(copy.deepcopy(op))
+                sc.learn(op, obs)
+                ops.append(op)
+                impl.append(obs)
+                ctx.count('op.' + op['op'])
+            if cfg['asyncHandlers']:
+                op = {'op': 'settle'}
+                ops.append(op)
+                impl.append(runner.do(op))
+            if final_lose_all:
+                for t in list(sc.open):
+                    op = {'op': 'lost', 't': t, 'reason': 'transport close'}
+                    obs = runner.do(op)
+                    sc.learn(op, obs)
+                    ops.append(op)
+                    impl.append(obs)
+            residue = runner.residue()
+        finally:
+            runner.close()
+        model, snap = model_run(cfg, ops)
+        trace = list(zip(ops, impl, model))
+        evals += len(ops)
+        ctx.count('mode.' + mode)
+        div = first_divergence(trace)
+        fails = oracle(cfg, trace, residue) if oracle else []
+        if div or fails:
+            case = {'mode': mode, 'coro': coro, 'cfg': cfg}
+
+            def still(cand, want_oracle=bool(fails)):
+                tr, res, _ = execute(mode, cfg, cand, coro)
+                if want_oracle:
+                    return bool(oracle(cfg, tr, res))
+                return first_divergence(tr) is not None
+            small = shrink_ops(ops, still)
+            tr, res, _ = execute(mode, cfg, small, coro)
+            case['ops'] = small
+            if fails:
+                f2 = oracle(cfg, tr, res) or fails
+                for sig, text in f2[:3]:
+                    if sig:
+                        ctx.known(sig, text)
+                    else:
+                        ctx.violation('oracle', text, dict(case, failure=text))
+            if div:
+                d2 = first_divergence(tr)
+                ctx.violation('correspondence',
+                              'implementation and model disagree at op %s: %s' % (
+                                  d2[0] if d2 else div[0], (d2 or div)[1][0][:400]),
+                              dict(case, divergence=(d2 or div)[1]), no_input=not fails)
+        if nontrivial:
+            key = nontrivial(cfg, trace)
+            if key is not None:
+                nontriv.add(key)
+        if len(samples) < 2:
+            samples.append({'mode': mode, 'cfg': {k: v for k, v in cfg.items() if k in ('alwaysConnect', 'asyncHandlers', 'served', 'fn', 'cls')},
+                            'ops': [_brief(o) for o in ops[:25]]})
+    ctx.coverage['evaluations'] = ctx.coverage.get('evaluations', 0) + evals
+    ctx.coverage['distinct_nontrivial'] = ctx.coverage.get('distinct_nontrivial', 0) + len(nontriv)
+    ctx.coverage['traces_validated_against_impl'] = ctx.coverage.get('traces_validated_against_impl', 0) + ncases
+    ctx.coverage.setdefault('samples', []).extend(samples)
+
+
+def _brief(o):
+    o = dict(o)
+    for k in ('data', 'v'):
+        if k in o:
+            o[k] = repr(o[k])[:80]
+    if 'during' in o:
+        o['during'] = [_brief(x) for x in o['during']]
+    return o
+
+
+def replay_case(ctx, r):
+    """`./check Cxx --replay file`: re-executes the stored case on impl and model and prints both."""
+    case = r.get('replay', r)
+    trace, residue, snap = execute(case['mode'], case['cfg'], case['ops'], case.get('coro', False))
+    for i, (op, im, mo) in enumerate(trace):
+        print('--- op %d: %s' % (i, _brief(op)))
+        print('   impl : %r' % ({k: v for k, v in im.items() if v},))
+        print('   model: %r' % ({k: v for k, v in mo.items() if v},))
+        d = compare(op, im, mo)
+        if d:
+            print('   DIFF : %s' % d)
+    print('residue impl=%r model=%r' % (residue, snap))
+    return 0
